@@ -18,6 +18,10 @@ CHECKS = {
             "Totality: every panic source (assert, unwrap/expect, slicing/indexing, panicking macro, panicking container method) in every function reachable from the four parser entry points (over-approximated call graph: class-hierarchy edges, trait-bound callbacks, closures) is proved dead by a semantic idiom (prefix fact on the same unmodified string established locally or by every caller; dominating comparison; is_some guard) or carries a reviewed one-symbol table line; anything else - in particular any new panic source - is a violation. Fixpoint: every keyword the printers emit (constraints, relation operators, query types, data operators, qualifiers) is accepted by the parser. Meaning preservation of print/parse is not decided.",
             "trusts rustc MIR and trait resolution, the over-approximated call graph, and rules/panic_safe.json (23 reviewed lines); panics inside foreign crates are not modelled",
             "DESIGN.md section 4 C09, A1, A2", "mir+syn"),
+    "C19": ("other", "panic-source reachability over the MIR call graph from all loader entry points and serde/minicbor callbacks, with discharge idioms and a reviewed table; allocation-size provenance; loop-advance shape; must-call validation",
+            "For every input: each panic source in the 670 functions reachable from the loader entry points and from every local impl of serde Deserialize/DeserializeSeed/Visitor and minicbor Decode is proved dead by an idiom, carries a reviewed reason, or is reported (new panic sources are violations; today's genuine ones are listed as known findings or were repaired). Every allocation in that code must be sized by a constant or a length of existing data; every loop must advance an iterator or reader; the CBOR loader must validate handles (it does not: known finding). Running time and the C01-C03 guarantee for the loaded store are not decided.",
+            "trusts rustc MIR, the over-approximated call graph (class hierarchy restricted by instantiation sets, trait-bound callbacks), and rules/panic_safe.json; category reasons in that table rely on the store invariants of C01-C03, which hold for JSON/CSV-built stores only",
+            "DESIGN.md section 4 C19, A1, A2", "mir"),
 }
 
 NA = {
